@@ -11,6 +11,7 @@ import (
 
 	"bebopverif/internal/core"
 	"bebopverif/internal/genfacts"
+	"bebopverif/internal/load"
 	"bebopverif/internal/wire"
 )
 
@@ -421,6 +422,11 @@ func checkC07(c *core.Ctx) {
 			if n == 0 {
 				c.Check("R1", "no unchecked helper "+bodyKeyAll(rf), anchorPos(gr.p, rf.Spec.Kind, mBR), true, "")
 			}
+			for _, f := range mf.Fails {
+				if f.Rule == "wrapcheck" {
+					c.Check("R2", "wrapping length check "+mBR+" "+kindName(rf.Spec.Kind), anchorPos(gr.p, rf.Spec.Kind, mBR), false, f.Msg+" — "+rf.where(f.Pos))
+				}
+			}
 			for _, a := range mf.Allocs {
 				// one emitter branch (array / map) produces every such site
 				key := fmt.Sprintf("alloc %s %s", mBR, a.Kind)
@@ -741,7 +747,7 @@ var posPrefix = regexp.MustCompile(`^[^ ]+\.go:\d+:\d+: `)
 var quotedIdent = regexp.MustCompile("`[^`]*`")
 
 func checkC12(c *core.Ctx) {
-	c.Explainf("C12 (decided clause). The generator's source is folded over every explored schema shape (all leaf classes incl. enums over the 8 accepted base types, records of the three kinds, empty and readonly records, containers to the tier's depth, multi-field records, a union with struct/message/empty branches) under all 32 option sets, and the text of each resulting file is parsed with go/parser and type-checked with go/types against the real bebop and iohelp packages loaded from /repo; `var _ bebop.Record = &T{}` in that text makes the checker verify the method set. Also: the generator must not refuse (error) a schema Validate accepts, and the evaluator must not hit a generator-side panic (index out of range on a name, nil map). This decides 'compiles' for the explored shapes only — schemas mixing shapes in ways not enumerated, identifier clashes between user names and generated names, and Go keywords as field names are NOT decided.")
+	c.Explainf("C12 (decided clause). The generator's source is folded over every explored schema shape (all leaf classes incl. enums over the 8 accepted base types, records of the three kinds, empty and readonly records, containers to the tier's depth, multi-field records, a union with struct/message/empty branches) under all 32 option sets, and the text of each resulting file is parsed with go/parser and type-checked with go/types against the real bebop and iohelp packages loaded from /repo; `var _ bebop.Record = &T{}` in that text makes the checker verify the method set. Also: the generator must not refuse (error) a schema Validate accepts, and the evaluator must not hit a generator-side panic (index out of range on a name, nil map). R4: no strings/bytes Trim, TrimLeft or TrimRight in the package takes a computed string as its set of characters (a prefix mistaken for a cutset; positive control fixtures/cutset). This decides 'compiles' for the explored shapes only — schemas mixing shapes in ways not enumerated, identifier clashes between user names and generated names, and Go keywords as field names are NOT decided.")
 	gr := startGen(c)
 	if gr == nil {
 		return
@@ -798,6 +804,66 @@ func checkC12(c *core.Ctx) {
 	c.Floor("files_typechecked", 30)
 	casingProbe(c, gr)
 	importListRule(c, gr)
+	cutsetsAreConstants(c, gr.p)
+}
+
+// scanComputedCutsets: strings/bytes Trim, TrimLeft and TrimRight take a *set
+// of characters*. A set that is computed from a name (TrimLeft(typename,
+// namespace+".")) is a prefix or suffix mistaken for a cutset: every leading
+// character of the rest that also occurs in the name is stripped with it, and
+// the identifier the generator then emits is not the one that was declared.
+func scanComputedCutsets(info *types.Info, files []*ast.File, report func(fn, what string, pos token.Pos)) (sites int) {
+	for _, f := range files {
+		for _, d := range f.Decls {
+			fd, ok := d.(*ast.FuncDecl)
+			if !ok || fd.Body == nil {
+				continue
+			}
+			ast.Inspect(fd.Body, func(n ast.Node) bool {
+				call, ok := n.(*ast.CallExpr)
+				if !ok || len(call.Args) != 2 {
+					return true
+				}
+				callee := load.Callee(info, call)
+				if callee == nil || callee.Pkg() == nil || (callee.Pkg().Path() != "strings" && callee.Pkg().Path() != "bytes") {
+					return true
+				}
+				switch callee.Name() {
+				case "Trim", "TrimLeft", "TrimRight":
+				default:
+					return true
+				}
+				sites++
+				set := call.Args[1]
+				if cl, isConv := ast.Unparen(set).(*ast.CallExpr); isConv && len(cl.Args) == 1 && info.Types[cl.Fun].IsType() {
+					set = cl.Args[0]
+				}
+				if info.Types[set].Value == nil {
+					report(fd.Name.Name, callee.Pkg().Name()+"."+callee.Name()+"(…, "+wire.Canon(call.Args[1])+")", call.Pos())
+				}
+				return true
+			})
+		}
+	}
+	return sites
+}
+
+func cutsetsAreConstants(c *core.Ctx, p *load.Prog) {
+	pkg := p.Bebop()
+	n := scanComputedCutsets(pkg.TypesInfo, pkg.Syntax, func(fn, what string, pos token.Pos) {
+		c.Check("R4", fn+" trims by a constant set of characters", p.Pos(pos), false, what+" takes its second argument as a set of characters, not as a prefix or suffix: whatever follows and is spelled with characters of that computed string is stripped too (a type DataPoint of package gameData becomes Point), and the emitted identifier is not the declared one")
+	})
+	c.Check("R4", "no Trim/TrimLeft/TrimRight with a computed cutset (scan complete)", "gen*.go, parse.go", true, "")
+	c.Count("trim_cutset_sites", n)
+	f, info, err := typeCheckFixture(c, "cutset")
+	if err != nil {
+		c.Undecide("positive control fixture cutset: %v", err)
+		return
+	}
+	hits := map[string]bool{}
+	scanComputedCutsets(info, []*ast.File{f}, func(fn, what string, pos token.Pos) { hits[fn] = true })
+	c.Check("R4", "positive control: a computed cutset is recognised", "fixtures/cutset/fx.go", hits["bare"] && hits["bareBytes"], "the rule no longer matches the shape it is meant to find")
+	c.Check("R4", "positive control: constant cutsets and prefixes are not reported", "fixtures/cutset/fx.go", !hits["quotes"] && !hits["prefix"], "")
 }
 
 // shapePattern abstracts a shape to container skeleton + leaf class.
